@@ -3,41 +3,8 @@
 package frame
 
 import (
-	"net/netip"
-
 	vf "github.com/mycoria/mycoria/zzvf"
 )
-
-func vfAddr() netip.Addr {
-	var a [16]byte
-	copy(a[:], vf.Bytes(16))
-	return netip.AddrFrom16(a)
-}
-
-type vfLink struct{ id int }
-
-func (l *vfLink) Peer() netip.Addr                 { return netip.Addr{} }
-func (l *vfLink) SwitchLabel() uint16               { return uint16(l.id) }
-func (l *vfLink) vfMarker()                         {}
-
-// vfBuilt builds a frame of arbitrary (symbolic) shape on a builder with
-// arbitrary margins. All five pooled-slice tiers are reachable.
-func vfBuilt(b *Builder) *FrameV1 {
-	off, ovh := vf.Int(), vf.Int()
-	vf.Assume(off >= 0 && off <= 100 && ovh >= 0 && ovh <= 100)
-	b.SetFrameMargins(off, ovh)
-	mt := MessageType(vf.U8())
-	nsw, nmsg, napx := vf.Int(), vf.Int(), vf.Int()
-	vf.Assume(nsw >= 0 && nsw <= 255)
-	vf.Assume(nmsg >= 1 && nmsg <= frameV1MessageLimit)
-	vf.Assume(napx >= 0 && napx <= frameV1AppendixLimit)
-	f, err := b.NewFrameV1(vfAddr(), vfAddr(), mt, vf.Bytes(nsw), vf.Bytes(nmsg), vf.Bytes(napx))
-	vf.Assert(err == nil, "build-failed")
-	if err != nil {
-		vf.Stop()
-	}
-	return f
-}
 
 // VfC17Clone: Clone never panics, copies every byte and field, shares no
 // buffer, and later writes to either frame do not show in the other.
